@@ -131,6 +131,9 @@ class Prop(Check):
         "Obj.C05_refs_inert_update",
         "Obj.C05_parent_of_type",
         "Obj.C05_ancestors_contained",
+        "Obj.C05_abstract_selection",
+        "Obj.C05_abstract_pinned_false",
+        "Obj.C05_nav_after_refs",
         "Obj.C05_history_view",
         "Obj.C05_history_navigation",
         "Obj.C05_history_model",
@@ -620,7 +623,12 @@ class Prop(Check):
                     last[cid] = cont
             if changed and o.get("outcome") == "ok" and any(po[0] in changed for po in o.get("pheap") or []):
                 sess["cases_whose_last_model_has_instances_of_such_a_class"] += 1
+        absn = None
+        for o in obs:
+            if isinstance(o, dict) and o.get("ptree") is not None:
+                absn = G.abs_stats(o["ptree"], absn)
         return {"distribution": {"outcomes": outcomes, "objects_total": sum(sizes), "objects_max": max(sizes or [0]),
+                                 "abstract_nodes_with_several_children": absn,
                                  "sessions": sess,
                                  "navigation_calls": nq, "cases_with_user_classes": user,
                                  "cases_per_user_class_trait": traits, "falsy_objects": falsy,
